@@ -60,7 +60,11 @@ RULE = ("(a) round trips: real MultipartWriter (subtypes mixed/related/form-data
         "registry from file-like objects (BytesIO, TemporaryFile, file opened rb, text-mode file, StringIO) holding a prefix of 0-3000 bytes "
         "and positioned just after it, each query writes the body again (size asked before or after the write) and the bytes written "
         "are read back with the real reader and must be what was added; (g) get_payload(BytesIO / real file at offset k) under random "
-        "size/write sequences vs the IOPayload model. Every case is compared event by event (headers, every chunk/line handed "
+        "size/write sequences vs the IOPayload model; (h) deterministic cases run first on every seed: one per recorded finding, bodies "
+        "truncated inside a base64 part read by read_chunk/read/release (EOF counter), hand-written nested bodies without epilogue and with "
+        "mixed-case header names/tokens, file-like payloads at offset 100, FormData used twice, text-mode files handed over after a "
+        "readline; (i) work: 64 KiB vs 512 KiB parts (plain lines, CRLF runs, dashes, near-delimiters, base64) in 64..4096-byte segments "
+        "through read/read_chunk/readline/release: CPU t(8n) <= 16 t(n) + 0.4 s and <= 4 s. Every case is compared event by event (headers, every chunk/line handed "
         "out, error class) with the Lean model, and judged by the direct oracle. Distinct by boundary+parts+cuts+script.")
 TRUSTED_BASE = [
     "zlib and binascii.b2a_qp are not modelled: the compressor outputs and quoted-printable encodings are oracle columns of the writer model",
@@ -559,7 +563,10 @@ class _Resign:
     def __init__(self, ctx, sig):
         self._ctx, self._sig = ctx, sig
     def violation(self, sig, case, detail):
-        self._ctx.violation(self._sig, case, f"[{sig}] {detail}")
+        if sig.startswith(("C19/roundtrip/", "C19/b64/")):
+            self._ctx.violation(self._sig, case, f"[{sig}] {detail}")
+        else:                          # size / termination / limits clauses are never absorbed by a read-side finding
+            self._ctx.violation(sig, case, detail)
     def __getattr__(self, k):
         return getattr(self._ctx, k)
 
@@ -609,7 +616,8 @@ def one_roundtrip(ctx, loop, case, compare_lines):
               limit=case.get("limit", 2 ** 16))
     ev, parts, steps, err, rd = run_reader(loop, segs, boundary, subtype, **kw)
     ctx.hit("rt:" + (err or "ok"))
-    if err is not None and has_empty_nested(specs):
+    if err == "E_VALUE" and has_empty_nested(specs) and (not case["descend"] or ev.endswith("( ) E_VALUE")):
+        # (narrow: a ValueError raised by the first next() after an empty nested reader; anything else is reported as itself)
         ctx.violation("C19/roundtrip/empty-nested-multipart", case, f"a body with an empty nested multipart ends with {err}: {ev[-200:]}")
     elif err is not None:
         ctx.violation(f"C19/roundtrip/reader-error/{err}", case, f"reading a body produced by the writer ended with {err}: {ev[-200:]}")
@@ -696,6 +704,10 @@ def flush_compare(ctx, lines):
 # ------------------------------------------------------------------------------ mutation stream (termination, limits)
 ASCII_JUNK = [b"\r\n", b"\n", b"\r", b"--", b":", b" ", b"\t", b"a", b"Content-Length: 5\r\n", b"Content-Length: 0\r\n", b"Content-Length: 1x\r\n",
               b"Content-Type: multipart/mixed; boundary=q\r\n", b"Content-Type: multipart/mixed\r\n", b"Content-Transfer-Encoding: base64\r\n",
+              b"content-length: 3\r\n", b"CONTENT-LENGTH: 2\r\n", b"Content-Length:7\r\n", b"Content-Length: 007\r\n", b"Content-Length: +5\r\n",
+              b"content-type: Multipart/Mixed; Boundary=q\r\n", b"CONTENT-TYPE: MULTIPART/FORM-DATA; boundary=\"q\"\r\n", b"Content-Type: multipart/mixed; boundary=\r\n",
+              b"Content-Type: multipart/mixed; boundary=" + b"z" * 71 + b"\r\n", b"content-transfer-encoding: BASE64\r\n", b"Content-Transfer-Encoding: base64\r\nContent-Transfer-Encoding: base64\r\n",
+              b"--q\r\n", b"--q--\r\n",
               b"\r\n\r\n", b"x: y\r\n", b"bad header\r\n", b"Content-Type: text/plain\r\nContent-Type: text/html\r\n", b"\x00", b"\x7f", b"=", b"Zm9v"]
 
 
@@ -828,6 +840,30 @@ def fixed_probes():
         # quoted-printable decoded chunk by chunk (BodyPartReaderPayload.write / post()): an escape split by a short read stays encoded
         {"kind": "tecase", "te_kind": "quoted-printable", "te": "quoted-printable", "path": "payload", "seg": 3, "boundary": "b",
          "content": b"price=5 caf\xc3\xa9".hex(), "sizes": [8192]},
+        # body truncated inside a part, read by read_chunk / read / release: the EOF counter must end it after exactly two more calls
+        {"kind": "trunc", "boundary": "b", "subtype": "mixed", "specs": specs_to_json([P(content=b"0123456789" * 30, te="base64", headers=[("Content-Transfer-Encoding", "base64")])]),
+         "cut_at": -40, "script": [["C", [8192]]]},
+        {"kind": "trunc", "boundary": "b", "subtype": "mixed", "specs": specs_to_json([P(content=b"0123456789" * 30, te="base64", headers=[("Content-Transfer-Encoding", "base64")])]),
+         "cut_at": -40, "script": [["R"]]},
+        {"kind": "trunc", "boundary": "b", "subtype": "mixed", "specs": specs_to_json([P(content=b"0123456789" * 30, te="base64", headers=[("Content-Transfer-Encoding", "base64")])]),
+         "cut_at": -40, "script": [["X"]]},
+        # nested close-delimiter not followed by an epilogue line (the `_read_boundary` fallback), nested twice, and a length-framed
+        # part whose content contains the delimiter
+        {"kind": "raw", "boundary": "o", "script": [["R"]], "descend": True, "seg": 7,
+         "wire": (b"--o\r\nContent-Type: multipart/mixed; boundary=i\r\n\r\n--i\r\n\r\nA\r\n--i--\r\n--o\r\n\r\nB\r\n--o--\r\n").hex()},
+        {"kind": "raw", "boundary": "o", "script": [["C", [9, 5]]], "descend": False, "seg": 3,
+         "wire": (b"--o\r\nContent-Type: multipart/mixed; boundary=i\r\n\r\n--i\r\nContent-Type: Multipart/Related; Boundary=\"j\"\r\n\r\n--j\r\n\r\nA\r\n--j--\r\n--i--\r\n\r\n--o\r\ncontent-length: 9\r\n\r\nB\r\n--o\r\nB\r\n--o--\r\n").hex()},
+        # file-like payload at a non-zero offset: size, write, write
+        {"kind": "iop", "buf": bytes(range(200)).hex(), "k": 100, "src": "filerb", "ops": "SWWS"},
+        {"kind": "iop", "buf": bytes(range(200)).hex(), "k": 100, "src": "bytesio", "ops": "WWS"},
+        # FormData used twice (redirect / retry): same bytes, same size
+        {"kind": "post", "fields": [{"name": "a", "bytes": False, "text": "v1", "ctype": None},
+                                    {"name": "f", "bytes": True, "hex": b"filedata".hex(), "filename": "x.bin", "ctype": None}],
+         "quote_fields": True, "seg": 1000, "client_max_size": 2 ** 30},
+        # text-mode file (default newline=None) handed over after the caller consumed a CR-terminated header line
+        {"kind": "textcookie", "data": b"HDR\rline one\rline two\r".hex(), "how": "readline", "newline": None, "api": "append"},
+        {"kind": "textcookie", "data": b"HDR\rline one\rline two\r".hex(), "how": "readline", "newline": None, "api": "formdata"},
+        {"kind": "textcookie", "data": b"HDR\nline one\nline two\n".hex(), "how": "readline", "newline": None, "api": "append"},
         # readline API on a body truncated inside a part
         {"kind": "trunc", "boundary": "b", "subtype": "mixed", "specs": specs_to_json([P(content=b"line1\r\nline2")]), "cut_at": -12,
          "script": [["L"]]},
@@ -848,6 +884,60 @@ def one_trunc(ctx, loop, case, compare_lines):
     elif err == "LOOP":
         ctx.violation("C19/termination/step-bound-exceeded", case, "step bound exceeded")
     compare_lines.append((rd_line([wire], case["boundary"], case["subtype"], script=script), ev, case, "truncated body vs Aio.C19.drive"))
+
+
+def one_raw(ctx, loop, case, compare_lines):
+    """a hand-written body (shapes no writer produces): termination oracle + event-by-event comparison with the model"""
+    wire = bytes.fromhex(case["wire"])
+    seg = case["seg"]
+    segs = [wire[i:i + seg] for i in range(0, len(wire), seg)]
+    script = [tuple(a) if a[0] != "C" else ("C", list(a[1])) for a in case["script"]]
+    kw = dict(script=script, descend=case["descend"])
+    ev, parts, steps, err, rd = run_reader(loop, segs, case["boundary"], "mixed", bound=8 * len(wire) + 2048, **kw)
+    ctx.hit("raw:" + (err or "END"))
+    if err in ("LOOP", "STUCK") or (err or "").startswith("E_OTHER"):
+        ctx.violation(f"C19/termination/raw-body/{err}", case, f"reader ended with {err}")
+    if "expect" in case and ev != case["expect"]:
+        ctx.violation("C19/roundtrip/raw-body-reads-differently", case, f"events {ev[-160:]} expected {case['expect'][-160:]}")
+    compare_lines.append((rd_line(segs, case["boundary"], "mixed", **kw), ev, case, "hand-written body vs Aio.C19.drive"))
+
+
+def one_textcookie(ctx, loop, case):
+    """a text-mode file handed to MultipartWriter.append / FormData.add_field after the caller read its first line: the declared
+    size must be the bytes written and the rest of the file must read back"""
+    import tempfile
+    from aiohttp import MultipartWriter, FormData
+    data = bytes.fromhex(case["data"])
+    t = tempfile.NamedTemporaryFile("wb", delete=False, prefix="c19-", suffix=".txt"); t.write(data); t.close()
+    f = open(t.name, "r", encoding="utf-8", newline=case["newline"])
+    os.unlink(t.name)
+    try:
+        head = f.readline() if case["how"] == "readline" else f.read(4)
+        cookie = f.tell()
+        rest_expected = None
+        if case["api"] == "append":
+            mw = MultipartWriter("mixed", boundary="B"); mw.append(f)
+        else:
+            fd = FormData(); fd.add_field("f", f, filename="a.txt"); mw = fd()
+        res = {}
+        try:
+            res["size"] = mw.size
+            res["wire"] = write_all(loop, mw)
+        except Exception as e:
+            res["err"] = f"{type(e).__name__}: {str(e)[:60]}"
+    finally:
+        f.close()
+    is_cookie = cookie > len(data)        # TextIOWrapper.tell() returned an opaque cookie, not a byte offset
+    ctx.hit(f"textcookie:{'cookie' if is_cookie else 'offset'}:{'err' if 'err' in res else 'ok'}")
+    bad = None
+    if "err" in res:
+        bad = f"size={res.get('size')}, write raised {res['err']}"
+    elif res["size"] is not None and res["size"] != len(res["wire"]):
+        bad = f"size={res['size']} but {len(res['wire'])} bytes written"
+    if bad:
+        sig = ("C19/size/textfile-tell-cookie-used-as-byte-offset" if is_cookie and (res.get("size") or 0) < 0
+               else "C19/size/textfile-part-size-or-write-wrong")
+        ctx.violation(sig, case, f"text-mode file {data[:24]!r}, newline={case['newline']!r}, after {case['how']} (tell()={hex(cookie)}), via {case['api']}: {bad}")
 
 
 def check_probes(ctx, loop):
@@ -881,6 +971,12 @@ def run_case(ctx, loop, case, lines):
         one_history(ctx, loop, case, lines)
     elif k == "iop":
         one_iopayload(ctx, loop, case, lines)
+    elif k == "raw":
+        one_raw(ctx, loop, case, lines)
+    elif k == "work":
+        one_work(ctx, loop, case)
+    elif k == "textcookie":
+        one_textcookie(ctx, loop, case)
 
 
 # ------------------------------------------------------------------------------ limits are enforced while reading
@@ -950,6 +1046,19 @@ def one_post(ctx, loop, case):
         ctx.hit("post:writer-refuses"); return
     if mw.size is not None and mw.size != len(wire):
         ctx.violation("C19/size/declared-differs-from-written", case, f"FormData: size={mw.size}, wrote {len(wire)}")
+    # the same FormData object is called and sent again (retry, 307/308 redirect): same bytes, same size
+    try:
+        mw2 = fd()
+        wire2 = write_all(loop, mw2)
+        size2 = mw2.size
+    except Exception as e:
+        wire2, size2 = f"{type(e).__name__}: {e}"[:80], None
+    if wire2 != wire:
+        ctx.violation("C19/roundtrip/formdata-second-use-differs", case,
+                      f"FormData called and written a second time: {len(wire)} bytes first, then "
+                      f"{len(wire2) if isinstance(wire2, bytes) else wire2}")
+    elif size2 != mw.size:
+        ctx.violation("C19/size/declared-differs-from-written/formdata-second-use", case, f"size {mw.size} first, {size2} on second use")
     seg = case["seg"]
     segs = [wire[i:i + seg] for i in range(0, len(wire), seg)]
     sr = io19.make_stream(loop, 2 ** 16, 16 * len(wire) + 4096)
@@ -1179,8 +1288,10 @@ def one_bomb(ctx, loop, case):
         exp = content if api != "form" else content
         if out["res"] != "ok":
             ctx.violation(f"C19/limits/decoded-size/false-positive/{api}", case, f"{info}: ended with {out['res']}")
-        elif api in ("read", "text") and out["value"] != content:
-            ctx.violation(f"C19/roundtrip/content-differs/decode=True/{enc}", case, f"{info}: decoded value differs from what was written")
+        elif out["value"] != content:
+            # read/text: the bytes; json: the re-serialised list; form: the re-joined pairs ("a=1&" units) - all equal the content
+            ctx.violation(f"C19/roundtrip/content-differs/decode=True/{api}/{enc}", case,
+                          f"{info}: the value {api}() returns ({len(out['value'])} bytes re-serialised) differs from what was written")
     if out["peak_piece"] > slack:
         ctx.violation("C19/limits/decoded-size/decode-chunk-exceeds-max_decompress_size", case,
                       f"{info}: decode_iter yielded a piece of {out['peak_piece']} bytes (> {slack})")
@@ -1281,7 +1392,10 @@ def one_tecase(ctx, loop, case):
         else:
             ctx.violation(f"C19/roundtrip/te-letter-case/base64/{path}", case,
                           f"{info}: {bad}" + (f"; chunk {un[0]} holds {un[1]} base64 characters, not whole quartets" if un else ""))
-    elif kind == "quoted-printable" and path == "payload":
+    elif (kind == "quoted-printable" and path == "payload" and out["res"] == "ok" and out.get("tail") == b"tail"
+          and binascii.a2b_qp(b"".join(out["chunks"])) == content
+          and b"".join(binascii.a2b_qp(c) for c in out["chunks"]) == out["dec"]):
+        # (narrow: every raw chunk was delivered, and what came out is exactly the chunk-by-chunk decoding of them)
         ctx.violation("C19/roundtrip/qp-decoded-per-chunk", case, f"{info}: {bad}")
     else:
         ctx.violation(f"C19/roundtrip/te-letter-case/{kind}/{path}", case, f"{info}: {bad}")
@@ -1556,7 +1670,7 @@ def _one_history(ctx, loop, case, lines, opened):
             got = _hist_readback(loop, w, wire)
             if got != exp:
                 srcs = sorted({getattr(p, "_c19_src", "nested") for p, _, _ in w._parts})
-                if _has_empty_nested_tree(exp):
+                if _has_empty_nested_tree(exp) and isinstance(got, str) and got.startswith("ValueError: Invalid boundary b''"):
                     ctx.violation("C19/roundtrip/empty-nested-multipart", case, f"query {nq}: a body with an empty nested multipart reads back as {str(got)[:80]}")
                 elif isinstance(got, str):
                     ctx.violation("C19/roundtrip/history/reader-error", case,
@@ -1724,12 +1838,67 @@ def check_iopayloads(ctx, loop):
     flush_compare(ctx, lines)
 
 
+# ------------------------------------------------------------------------------ work: reading is linear in the input
+WORK_BUDGET_S = 4.0     # CPU seconds (process time) for 128-256 KiB through the reader; the unchanged tree needs < 0.3 s
+
+
+def _work_run(loop, case, n):
+    import time
+    from aiohttp import MultipartWriter, payload
+    seg, api = case["seg"], case["api"]
+    unit = {"plain": b"x" * 63 + b"\n", "crlf": b"\r\n", "dashes": b"-" * 64, "nearly": b"\r\n--wor"}[case["shape"]]
+    content = (unit * (n // len(unit) + 1))[:n]
+    hdrs = {"Content-Transfer-Encoding": "base64"} if case["b64"] else {}
+    mw = MultipartWriter("mixed", boundary="work")
+    mw.append_payload(payload.BytesPayload(content, headers=CIMultiDict(hdrs)))
+    if not case["b64"]:
+        mw._parts[0][0].headers.popall("Content-Length", None)      # stream mode: the boundary search does the work
+    wire = write_all(loop, mw)
+    segs = [wire[i:i + seg] for i in range(0, len(wire), seg)]
+    script = {"read": [("R",)], "chunk": [("C", [case["size"]])], "readline": [("L",)], "release": [("X",)]}[api]
+    t0 = time.process_time()
+    ev, parts, steps, err, rd = run_reader(loop, segs, "work", "mixed", script=script, bound=40 * len(wire) // min(seg, case["size"]) + 10 ** 5)
+    return time.process_time() - t0, err
+
+
+def one_work(ctx, loop, case):
+    """"never loops" also means no super-linear work: a part of n and of 8n bytes delivered in small segments and read through each
+    API; CPU time (process time, so a loaded box matters little) must grow about linearly - t(8n) <= 16 t(n) + 0.4 s - and stay
+    under an absolute budget; the step bound on stream reads applies as everywhere"""
+    n = case["n"]
+    t1, err1 = _work_run(loop, case, n)
+    t8, err8 = _work_run(loop, case, 8 * n)
+    err = err1 or err8
+    ctx.hit(f"work:{case['api']}:{case['shape']}:{'ok' if err is None else err}")
+    ctx.extra["work_cpu_seconds_max"] = max(ctx.extra.get("work_cpu_seconds_max", 0.0), round(t8, 2))
+    info = (f"{n} and {8 * n} bytes ({case['shape']}{', base64' if case['b64'] else ''}) in segments of {case['seg']}, {case['api']}"
+            + (f"({case['size']})" if case["api"] == "chunk" else ""))
+    if err == "LOOP":
+        ctx.violation("C19/termination/step-bound-exceeded", case, f"{info}: more stream reads than the bound")
+    elif err is not None and not (case["api"] == "readline" and case["shape"] == "nearly"):
+        ctx.violation(f"C19/roundtrip/reader-error/{err}", case, f"{info}: ended with {err}")
+    elif t8 > WORK_BUDGET_S or t8 > 16 * t1 + 0.4:
+        ctx.violation("C19/work/reading-not-linear", case,
+                      f"{info}: {t1:.2f} s and {t8:.2f} s of CPU (allowed: 16 x the first + 0.4 s, and {WORK_BUDGET_S} s in all)")
+
+
+def check_work(ctx, loop):
+    rng = ctx.rng
+    cases = [("read", "plain", 64, False), ("chunk", "dashes", 64, False), ("chunk", "nearly", 1000, False), ("readline", "plain", 1000, False),
+             ("release", "crlf", 64, False), ("chunk", "plain", 64, True), ("read", "nearly", 4096, False)]
+    for api, shape, seg, b64 in cases:
+        case = {"kind": "work", "api": api, "shape": shape, "seg": seg, "b64": b64, "n": 2 ** 16,
+                "size": rng.choice([10, 64, 8192])}
+        one_work(ctx, loop, case)
+        ctx.case(("work", api, shape, seg, b64, case["size"]))
+
+
 def check(ctx):
     import time
     loop = asyncio.new_event_loop()
     asyncio.set_event_loop(loop)
     try:
-        for f in (check_probes, check_mechanisms, check_roundtrips, check_mutations, check_limits, check_bombs, check_tecases, check_nestlims, check_histories, check_iopayloads, check_posts):
+        for f in (check_probes, check_mechanisms, check_roundtrips, check_mutations, check_limits, check_bombs, check_tecases, check_nestlims, check_histories, check_iopayloads, check_work, check_posts):
             t = time.time()
             f(ctx, loop)
             ctx.extra.setdefault("section_seconds", {})[f.__name__] = round(time.time() - t, 1)
